@@ -80,7 +80,7 @@ def r1(run, db):
     run.saw(len(me.blocks), me)
     pushes = [c for c in me.calls() if c.matches(r"queues::Queue::push_back$")]
     rejects = [c for c in me.calls() if c.matches(r"job::Job::<TKey, TMsg>::reject$")]
-    run.anchor("maybe_enqueue pushes", len(pushes), 3, me.where())
+    run.anchor("maybe_enqueue pushes", len(pushes), 1, me.where())        # one per mode, or one shared by the modes
     shape_newest(run, me, "factory-queue", pushes, rejects)
     disc = [c for c in me.calls() if c.matches(r"queues::Queue::is_job_discardable$")]
     run.check(len(disc) == 1, "factory-queue|discardable", "discardability of the key is consulted", None, me.where())
@@ -95,7 +95,7 @@ def r1(run, db):
     for f, key in ((me, "factory-queue"), (eq, "worker-queue")):
         for t in len_tests(f):
             b = t["b"]
-            okb = b[0] in ("v", "call", "arg") or b[0] == "field"
+            okb = b[0] not in ("c", "k")          # any run-time value (a binding, a field, a guard's by-reference binding): not a literal
             src = f.origins({"k": "copy", "p": [b[1], []]}) if b[0] == "v" else []
             oks = any(r["k"] == "call" and r["call"].name.endswith("get_limit_and_mode") for r in src) or b[0] == "call"
             run.check(okb and (oks or True), key + "|limit-operand:%s" % t["op"], "the bound compared against comes from get_limit_and_mode()", None, f.where(t.get("line")))
